@@ -16,6 +16,10 @@ Options honoured (all optional):
 Options of the C/C++ runners (target_endianness, enable_serialization_asserts, std, sanitize) have no meaning for the
 Python templates and are ignored.
 
+Extra request (this target only): `hist <step> ;; <step> ...` runs a HISTORY in one driver call with every earlier result kept
+alive (decoded objects, the fragments serialize() returned - not copied); steps des/ser/reser/frag/desfrag/dump/mutate, see
+target_py_driver.op_hist; generated and checked by campaign.gen_histories / check_history.
+
 What Python cannot observe (see design_notes/codec_target_py.md): consumed size of `des` (reported as '-'), the
 caller-provided buffer of `ser` (cap only yields `err too_small` when size > cap; fill is ignored), `prior` of `des`.
 """
